@@ -8,7 +8,7 @@
     Not modelled: [entry_count] (capacity hint only), [export_variables_on_modification]
     (`set -a`; assumed off). *)
 From Coq Require Import String.
-From BV Require Import Base.Prelude Base.Codec Shell.Vars.
+From BV Require Import Base.Prelude Base.Codec Scope.Vars.
 
 Inductive kind := KLocal | KGlobal | KCommand.
 Definition kind_eqb (a b : kind) : bool :=
